@@ -10,6 +10,7 @@ package types
 //@ trusted
 //@ func (k RollingseedKeeper) GetRollingSeed
 //@ trusted
+//@ ensures result == rollingSeedOf(Other)
 
 //@ func (k StakingKeeper) ValidatorByConsAddr
 //@ trusted
